@@ -409,8 +409,7 @@ def oracle(sc, obs):
                     break
                 if not same:
                     v.append(_V("frame_boundaries_changed",
-                                {"kind": kind, "deflate": obs.deflate, "split_inside_codepoint": inside,
-                                 "empty_fragment": 0 in lens[:-1] or (len(lens) > 1 and lens[-1] == 0)},
+                                {"kind": kind, "deflate": obs.deflate, "split_inside_codepoint": inside},
                                 f"{d}: unmodified {kind} message #{i} sent as fragments {lens} arrived as {g[3]}"))
                     break
 
